@@ -246,7 +246,15 @@ func ApplyGen(g *generate.Generator, o GenOp) string {
 	case "grad":
 		err = g.SetGradient(generate.GradientShape(o.Shape), generate.GradientSpread(o.Spread), o.Stops, o.Affs[0])
 	case "xf":
-		g.SetTransform(o.Affs...)
+		// the configured transform is what was passed at the time of the call: the caller's slice stays the caller's
+		// (overwritten here straight away; round 4, C20-G: the Generator kept it instead of its own product), and naming the
+		// destination again is not a re-configuration (C20-H: SetDestination re-initialised the Generator)
+		ts := append([]generate.Aff3(nil), o.Affs...)
+		g.SetTransform(ts...)
+		for i := range ts {
+			ts[i] = generate.Aff3{}
+		}
+		g.SetDestination(g.Destination)
 		return ""
 	case "path":
 		err = g.SetPathData(o.Path, o.Adj)
